@@ -64,6 +64,10 @@ func (s *Service) AttestationData(ctx context.Context,
 	// The soft timeout is half the duration of the hard timeout.
 	hardCtx, cancel := context.WithTimeout(ctx, s.timeout)
 	softCtx, softCancel := context.WithTimeout(hardCtx, s.timeout/2)
+	// The head slots that break a tie are looked up after the collection; a lookup can require
+	// a fetch of the block header, so it is bound by the same deadline as the collection.
+	lookupCtx, lookupCancel := context.WithDeadline(ctx, started.Add(s.timeout))
+	defer lookupCancel()
 
 	respCh, errCh := s.issueAttestationDataRequests(hardCtx, opts, started, requests)
 	span.AddEvent("Issued requests")
@@ -83,7 +87,7 @@ func (s *Service) AttestationData(ctx context.Context,
 	bestAttestationDataSlot := phase0.Slot(0)
 	for root, response := range attestationDataResponses {
 		count := attestationDataCounts[root]
-		slot, err := s.blockRootToSlotCache.BlockRootToSlot(ctx, response[0].attestationData.BeaconBlockRoot)
+		slot, err := s.blockRootToSlotCache.BlockRootToSlot(lookupCtx, response[0].attestationData.BeaconBlockRoot)
 		if err != nil {
 			log.Debug().Stringer("root", response[0].attestationData.BeaconBlockRoot).Err(err).Msg("Failed to obtain attestation data head slot; assuming 0")
 		}
@@ -123,7 +127,7 @@ func (s *Service) AttestationData(ctx context.Context,
 
 		return nil, fmt.Errorf("majority attestation data count of %d lower than threshold %d", bestAttestationDataCount, s.threshold)
 	}
-	slot, err := s.blockRootToSlotCache.BlockRootToSlot(ctx, bestAttestationData.BeaconBlockRoot)
+	slot, err := s.blockRootToSlotCache.BlockRootToSlot(lookupCtx, bestAttestationData.BeaconBlockRoot)
 	if err != nil {
 		log.Debug().Stringer("root", bestAttestationData.BeaconBlockRoot).Err(err).Msg("Failed to obtain best attestation data head slot; assuming 0")
 	}
